@@ -3,7 +3,7 @@
    rule list / category / type of a small universe, and the glob has the expected algebra. *)
 EXTENDS QtlCategory, TLC
 
-CONSTANTS MaxRules, MaxPat, MaxCat
+CONSTANTS MaxRules, MaxPat, MaxCat, TypedSet
 
 Alpha == {97, 98, 46, Star}          \* a b . *
 CatAlpha == {97, 98, 46}
@@ -12,7 +12,7 @@ SeqsUpTo(S, n) == UNION {[1..k -> S] : k \in 0..n}
 
 Pats == SeqsUpTo(Alpha, MaxPat) \ {<<>>}
 Cats == SeqsUpTo(CatAlpha, MaxCat)
-Rules == [pat : Pats, typed : {"", "debug", "critical"}, on : BOOLEAN]
+Rules == [pat : Pats, typed : TypedSet, on : BOOLEAN]
 
 VARIABLES rules, cat, type
 vars == <<rules, cat, type>>
